@@ -86,14 +86,15 @@ Definition upd2 {A} (m : Z -> Z -> A) (n k : Z) (v : A) : Z -> Z -> A :=
 
 Record nstate := mkNS {
   ns_pods : list (Z * palloc);          (* allocatedPods of every node: (node, allocation) *)
-  ns_ref : Z -> Z -> Z;                 (* allocatedCPUs[cpu].RefCount, 0 = absent *)
-  ns_excl : Z -> Z -> Z;                (* allocatedCPUs[cpu].ExclusivePolicy, 0 when absent *)
+  ns_cpu : Z -> Z -> Z * Z;             (* allocatedCPUs[cpu]: (RefCount, ExclusivePolicy); (0,0) = absent *)
   ns_res : Z -> Z -> Z * Z;             (* allocatedResources[numa] (cpu, memory) *)
   ns_single : Z -> Z -> list Z;         (* singleNUMANode[numa]: set of uids *)
   ns_shared : Z -> Z -> list Z }.       (* sharedNode[numa] *)
 
 Definition ns_init : nstate :=
-  mkNS [] (fun _ _ => 0) (fun _ _ => 0) (fun _ _ => (0, 0)) (fun _ _ => []) (fun _ _ => []).
+  mkNS [] (fun _ _ => (0, 0)) (fun _ _ => (0, 0)) (fun _ _ => []) (fun _ _ => []).
+Definition ns_ref (st : nstate) (node c : Z) : Z := fst (ns_cpu st node c).
+Definition ns_excl (st : nstate) (node c : Z) : Z := snd (ns_cpu st node c).
 
 Definition is_pod (node uid : Z) (e : Z * palloc) : bool :=
   (fst e =? node) && (pa_uid (snd e) =? uid).
@@ -110,20 +111,13 @@ Definition pair_add (a b : Z * Z) : Z * Z := (fst a + fst b, snd a + snd b).
 (* quotav1.SubtractWithNonNegativeResult *)
 Definition pair_sub0 (a b : Z * Z) : Z * Z := (Z.max 0 (fst a - fst b), Z.max 0 (snd a - snd b)).
 
-(* addPodAllocation, cpu part *)
-Definition add_cpu (node excl : Z) (st : nstate) (c : Z) : nstate :=
-  mkNS (ns_pods st) (upd2 (ns_ref st) node c (ns_ref st node c + 1))
-       (upd2 (ns_excl st) node c excl) (ns_res st) (ns_single st) (ns_shared st).
-Definition add_res (node : Z) (st : nstate) (e : Z * (Z * Z)) : nstate :=
-  mkNS (ns_pods st) (ns_ref st) (ns_excl st)
-       (upd2 (ns_res st) node (fst e) (pair_add (ns_res st node (fst e)) (snd e)))
-       (ns_single st) (ns_shared st).
-Definition add_single (node uid : Z) (st : nstate) (ni : Z) : nstate :=
-  mkNS (ns_pods st) (ns_ref st) (ns_excl st) (ns_res st)
-       (upd2 (ns_single st) node ni (set_add uid (ns_single st node ni))) (ns_shared st).
-Definition add_shared (node uid : Z) (st : nstate) (ni : Z) : nstate :=
-  mkNS (ns_pods st) (ns_ref st) (ns_excl st) (ns_res st) (ns_single st)
-       (upd2 (ns_shared st) node ni (set_add uid (ns_shared st node ni))).
+(* addPodAllocation, one map at a time *)
+Definition cpu_add (node excl : Z) (m : Z -> Z -> Z * Z) (c : Z) : Z -> Z -> Z * Z :=
+  upd2 m node c (fst (m node c) + 1, excl).
+Definition res_add (node : Z) (m : Z -> Z -> Z * Z) (e : Z * (Z * Z)) : Z -> Z -> Z * Z :=
+  upd2 m node (fst e) (pair_add (m node (fst e)) (snd e)).
+Definition set_ins (node uid : Z) (m : Z -> Z -> list Z) (ni : Z) : Z -> Z -> list Z :=
+  upd2 m node ni (set_add uid (m node ni)).
 
 Definition used_numa (tp : topo) (cpus : list Z) : list Z := dedup (map (numa_of tp) cpus).
 
@@ -131,36 +125,28 @@ Definition add_pod (tp : topo) (st : nstate) (node : Z) (p : palloc) : nstate :=
   match find_pod (ns_pods st) node (pa_uid p) with
   | Some _ => st
   | None =>
-    let st0 := mkNS ((node, p) :: ns_pods st) (ns_ref st) (ns_excl st) (ns_res st)
-                    (ns_single st) (ns_shared st) in
-    let st1 := fold_left (add_cpu node (pa_excl p)) (pa_cpus p) st0 in
     let used := used_numa tp (pa_cpus p) in
-    let st2 := match used with
-               | [] => st1
-               | [ni] => add_single node (pa_uid p) st1 ni
-               | _ => fold_left (add_shared node (pa_uid p)) used st1
-               end in
-    fold_left (add_res node) (pa_numa p) st2
+    mkNS ((node, p) :: ns_pods st)
+         (fold_left (cpu_add node (pa_excl p)) (pa_cpus p) (ns_cpu st))
+         (fold_left (res_add node) (pa_numa p) (ns_res st))
+         (match used with [ni] => set_ins node (pa_uid p) (ns_single st) ni | _ => ns_single st end)
+         (match used with
+          | [] => ns_shared st
+          | [_] => ns_shared st
+          | _ => fold_left (set_ins node (pa_uid p)) used (ns_shared st)
+          end)
   end.
 
 (* release *)
-Definition rel_cpu (node : Z) (st : nstate) (c : Z) : nstate :=
-  let r := ns_ref st node c in
+Definition cpu_rel (node : Z) (m : Z -> Z -> Z * Z) (c : Z) : Z -> Z -> Z * Z :=
+  let r := fst (m node c) in
   if 0 <? r then
-    if r - 1 =? 0
-    then mkNS (ns_pods st) (upd2 (ns_ref st) node c 0) (upd2 (ns_excl st) node c 0)
-              (ns_res st) (ns_single st) (ns_shared st)
-    else mkNS (ns_pods st) (upd2 (ns_ref st) node c (r - 1)) (ns_excl st)
-              (ns_res st) (ns_single st) (ns_shared st)
-  else st.
-Definition rel_res (node : Z) (st : nstate) (e : Z * (Z * Z)) : nstate :=
-  mkNS (ns_pods st) (ns_ref st) (ns_excl st)
-       (upd2 (ns_res st) node (fst e) (pair_sub0 (ns_res st node (fst e)) (snd e)))
-       (ns_single st) (ns_shared st).
-Definition rel_numa (node uid : Z) (st : nstate) (ni : Z) : nstate :=
-  mkNS (ns_pods st) (ns_ref st) (ns_excl st) (ns_res st)
-       (upd2 (ns_single st) node ni (set_del uid (ns_single st node ni)))
-       (upd2 (ns_shared st) node ni (set_del uid (ns_shared st node ni))).
+    (if r - 1 =? 0 then upd2 m node c (0, 0) else upd2 m node c (r - 1, snd (m node c)))
+  else m.
+Definition res_rel (node : Z) (m : Z -> Z -> Z * Z) (e : Z * (Z * Z)) : Z -> Z -> Z * Z :=
+  upd2 m node (fst e) (pair_sub0 (m node (fst e)) (snd e)).
+Definition set_rem (node uid : Z) (m : Z -> Z -> list Z) (ni : Z) : Z -> Z -> list Z :=
+  upd2 m node ni (set_del uid (m node ni)).
 
 (* the NUMA ids release() collects: those of the pod's cpus that are still in allocatedCPUs *)
 Definition rel_used (tp : topo) (st : nstate) (node : Z) (cpus : list Z) : list Z :=
@@ -170,12 +156,12 @@ Definition release (tp : topo) (st : nstate) (node uid : Z) : nstate :=
   match find_pod (ns_pods st) node uid with
   | None => st
   | Some p =>
-    let st0 := mkNS (filter (fun e => negb (is_pod node uid e)) (ns_pods st))
-                    (ns_ref st) (ns_excl st) (ns_res st) (ns_single st) (ns_shared st) in
     let used := rel_used tp st node (pa_cpus p) in
-    let st1 := fold_left (rel_cpu node) (pa_cpus p) st0 in
-    let st2 := fold_left (rel_numa node uid) used st1 in
-    fold_left (rel_res node) (pa_numa p) st2
+    mkNS (filter (fun e => negb (is_pod node uid e)) (ns_pods st))
+         (fold_left (cpu_rel node) (pa_cpus p) (ns_cpu st))
+         (fold_left (res_rel node) (pa_numa p) (ns_res st))
+         (fold_left (set_rem node uid) used (ns_single st))
+         (fold_left (set_rem node uid) used (ns_shared st))
   end.
 
 (* resourceManager.Update: dropped when the node has no valid CPU topology (yet) *)
@@ -234,17 +220,23 @@ Definition alloc_of (ds : list pdesc) (uid : Z) : palloc :=
    3 deleted, 4 terminated (still stored, phase Succeeded / reservation not active) *)
 Definition upd1 {A} (m : Z -> A) (k : Z) (v : A) : Z -> A := fun k' => if k' =? k then v else m k'.
 
+(* The preferredCPUExclusivePolicy a bound object carries.  For a Pod it is the one of its own
+   resource-spec annotation.  For a Reservation (kind 1) the policy sits in the pod template;
+   PreBindReservation (appendResourceSpecIfMissed) writes a resource-spec annotation WITHOUT it
+   on the Reservation itself, and NewReservePod lets the Reservation's annotations shadow the
+   template's: the reserve pod rebuilt from the stored Reservation has no exclusive policy. *)
+Definition persisted_excl (d : pdesc) : Z := if d_kind d =? 1 then 0 else d_excl d.
+
 (* the object as stored in the API server for a life-cycle status *)
+Definition bound_obj (ds : list pdesc) (uid : Z) (term : bool) : pobj :=
+  let d := desc_of ds uid in
+  mkObj uid (d_node d) term (persisted_excl d) (Some (persist_status (alloc_of ds uid))).
 Definition obj_of (ds : list pdesc) (life : Z -> Z) (uid : Z) : option pobj :=
   let d := desc_of ds uid in
   let s := life uid in
   if s =? 3 then None
-  else if (s =? 2) || (s =? 4)
-  then Some (mkObj uid (d_node d) (s =? 4) (d_excl d) (Some (persist_status (alloc_of ds uid))))
+  else if (s =? 2) || (s =? 4) then Some (bound_obj ds uid (s =? 4))
   else Some (mkObj uid 0 false (d_excl d) None).
-Definition bound_obj (ds : list pdesc) (uid : Z) (term : bool) : pobj :=
-  let d := desc_of ds uid in
-  mkObj uid (d_node d) term (d_excl d) (Some (persist_status (alloc_of ds uid))).
 
 Definition all_ok : Z -> bool := fun _ => true.
 
@@ -326,7 +318,7 @@ Definition snap_node (u : universe) (st : nstate) (node : Z) : nsnap :=
   mkSnap
     (map (fun uid => option_map (fun p => (pa_cpus p, pa_numa p)) (find_pod (ns_pods st) node uid))
          (zrange 1 (Z.to_nat (u_npods u))))
-    (map (fun c => (ns_ref st node c, ns_excl st node c)) (zrange 0 (Z.to_nat (u_ncpu u))))
+    (map (fun c => ns_cpu st node c) (zrange 0 (Z.to_nat (u_ncpu u))))
     (map (fun n => (ns_res st node n,
                     (mask_of (ns_single st node n) (u_npods u),
                      mask_of (ns_shared st node n) (u_npods u))))
